@@ -8,6 +8,7 @@
 import json
 import random
 import sys
+sys.setrecursionlimit(20000)
 
 PRIMS_U = ["u8", "u16", "u32", "u64", "u128"]
 PRIMS_I = ["i8", "i16", "i32", "i64", "i128"]
@@ -261,11 +262,14 @@ def core_types():
         d = [T("vec", [d]), T("option", [d]), T("box", [d]), T("tuple", [d, U8]), T("array", [d], 2), T("result", [d, STRING])][i]
     out.append(d)
     # very deep nesting (registration recursion depth 40 and 70; Box is transparent and does not add a level)
-    for depth in (40, 70):
-        d = U16
+    for depth in (40, 70, 130, 300):
+        # the two deepest ones end in `char` so that no value-level machinery is instantiated for them
+        d = U16 if depth <= 70 else T("char")
         for i in range(depth):
             d = [T("option", [d]), T("vec", [d]), T("tuple", [d]), T("array", [d], 1), T("option", [T("box", [d])])][i % 5]
         out.append(d)
+    # PhantomData first, then several real members
+    out += [T("tuple", [T("phantom", [U8]), U8, U16, STRING]), T("tuple", [U8, T("phantom", [U8]), U16, U32, BOOL]), T("tuple", [T("phantom", [U8]), T("phantom", [U16]), U8, U16, U32])]
     return out
 
 
@@ -297,7 +301,10 @@ class Gen:
             return T("array", [sub()], r.choice([0, 1, 2, 3, 4, 33]))
         if k == "tuple":
             n = r.choice([1, 2, 2, 3, 4, 5])
-            return T("tuple", [sub() for _ in range(n)])
+            ms = [sub() for _ in range(n)]
+            if r.random() < 0.15:
+                ms.insert(r.choice([0, 0, len(ms) // 2]), T("phantom", [self.leaf(need_ord, need_enc)]))
+            return T("tuple", ms)
         if k in ("btreeset", "binaryheap"):
             return T(k, [sub(o=True)])
         if k == "btreemap":
